@@ -18,6 +18,8 @@ CLAIMED = {
              ref='section 4 C04', note=COMMON_NOTE + "T-LOOP; A-REMOTE; A-OWN (the manager's dictionaries are distinct objects)."),
  'C05': dict(text="Deductive proof of the block arithmetic (BlockwiseTuple.size/start/reduced_to/is_valid_for_payload_size against RFC 7959 spec functions), of Message._extract_block/_append_response_block/_generate_next_block2_request (exact slices, more-flag, contiguity, ETag comparison, error classes), and of one iteration of both BlockwiseRequest loops against an arbitrary (possibly misbehaving) server response delivered at the await: the block on the wire is the slice at the cursor, the acknowledged number must be the sent one, the cursor afterwards is the first unsent byte (also across size reductions incl. BERT), the exponent never grows, the result future is set once and only after both phases.",
              ref='section 4 C05', note=COMMON_NOTE + "every await is a scheduling point (heap havocked except the request objects the coroutine owns: A-IMMUT); the server behaviour is arbitrary within message well-formedness; Message.copy is an assumed contract; loss/duplication of single exchanges is C03/C04."),
+ 'C06': dict(text="Deductive proof of the block-wise server helpers: Block1Spool.feed_and_take (pass-through, new assembly on block 0, append only at the exact offset, 4.08 for unknown/gap/overlap, 4.00 for a size mismatch, 2.31 echoing the option for intermediate blocks, complete body only after the final block), Message._append_request_block, Block2Cache.extract_or_insert (one rendering per block-0 request, later blocks are exact slices of the cached rendering via _extract_block or 4.08/4.00, stale renderings dropped), the block key, and TimeoutDict with a ghost clock (entries survive at least `timeout` after their last use and are discarded within twice that).",
+             ref='section 4 C06', note=COMMON_NOTE + "T-LOOP with ghost clock (timer fires exactly when due); A-TYPEINV (block option / endpoint value ranges); A-STORED (stored messages are not the request being processed); get_cache_key is an uninterpreted function of the options; timeout == MAX_TRANSMIT_WAIT at the two construction sites is not checked."),
  'C10': dict(text="Deductive proof that dispatch_message realises the RFC 7252 reaction table for every (type, code class), that _process_request/send_message acknowledge a CON request exactly once (piggy-backed or empty ACK, timer callback simulated), apply the RFC 7967 No-Response mask, choose the message type as specified and never hand a CON to a multicast destination to the transport.",
              ref='section 4 C10', note=COMMON_NOTE + "T-LOOP; A-REMOTE (as_response_address is the same endpoint value); behaviour after MessageManager.shutdown (forced NON) excluded from the piggy-back clauses; udp6 address predicates (is_multicast*) are abstract fields."),
  'C12': dict(text="Deductive proof that ReplayWindow implements the abstract 'seen' set: is_valid(n) iff n not seen; strike_out raises iff seen, otherwise adds exactly n (numbers falling out of the window become seen), keeps well-formedness and calls the callback once; initialisers establish the stated views. Integers used as bit fields are modelled as Int->Bool maps.",
